@@ -1454,7 +1454,8 @@ class ComponentSpecification(experiment.model.interface.InternalRepresentationAt
                 else:
                     continue
                 replacement = ':'.join((replacement, d.method))
-                pattern = re.compile(r'\b' + re.escape(original_reference) + r'\b')
+                # VV: do not use \b: a reference to an absolute path starts with a non-word character ('/')
+                pattern = re.compile(r'(?<!\w)' + re.escape(original_reference) + r'(?!\w)')
                 arguments = re.sub(pattern, replacement, arguments)
 
             blueprint_name = self.identification.componentName.rstrip('0123456789')
